@@ -48,5 +48,6 @@ BoundaryIsInitial ==
                                   access |-> G[i].access, id |-> G[i].id,
                                   note |-> "at a frame boundary the decoder is not in its initial state"]))
 
+AllProps == LET r == << Conforms, BoundaryIsInitial >> IN \A j \in 1..Len(r) : r[j]
 Stats == Note("@@S", [impl_states |-> Len(G), alphabet |-> 3])
 =============================================================================
